@@ -94,7 +94,22 @@ func identityKeys(r *rand.Rand) []namedPk {
 	if err != nil {
 		panic(err)
 	}
-	return []namedPk{{"identity-const", crypto.IdentityBLSPublicKey()}, {"identity-agg", agg}, {"identity-decoded", dec}}
+	out := []namedPk{{"identity-const", crypto.IdentityBLSPublicKey()}, {"identity-agg", agg}, {"identity-decoded", dec}}
+	// more producers of the identity key: removal that cancels, the compressed decoder, the public key of
+	// a zero (aggregated) private key
+	if rem, err := crypto.RemoveBLSPublicKeys(a, []crypto.PublicKey{a}); err == nil {
+		out = append(out, namedPk{"identity-removed", rem})
+	}
+	if rem, err := crypto.RemoveBLSPublicKeys(agg, []crypto.PublicKey{crypto.IdentityBLSPublicKey()}); err == nil {
+		out = append(out, namedPk{"identity-removed-from-agg", rem})
+	}
+	if d2, err := crypto.DecodePublicKeyCompressed(BLS, infEnc); err == nil {
+		out = append(out, namedPk{"identity-decoded-compressed", d2})
+	}
+	if z, err := crypto.AggregateBLSPrivateKeys([]crypto.PrivateKey{skFromInt(k), skFromInt(ref.Fr.Neg(k))}); err == nil {
+		out = append(out, namedPk{"identity-zero-sk", z.PublicKey()})
+	}
+	return out
 }
 
 type namedPk struct {
@@ -309,6 +324,41 @@ func C01(run *mon.Run) {
 		}
 	}
 	run.Require(run.Counter("xp-hunt.hits") > 0, "no point with x+p < 2^381 found")
+	// the expand_message hasher itself, for every tag length 0..400: KMAC128 keyed with
+	// tag || "BLS_SIG_BLS12381G1_XOF:KMAC128_SSWU_RO_POP_", customizer "H2C", 128 bytes (reference
+	// KMAC); and tags sharing a long prefix must still separate signatures
+	{
+		base := mon.RandBytes(r, 400)
+		for i := range base {
+			base[i] = 'a' + base[i]%26
+		}
+		msg := []byte("tag-sweep")
+		for l := 0; l <= 400; l++ {
+			tag := string(base[:l])
+			got := crypto.NewExpandMsgXOFKMAC128(tag).ComputeHash(msg)
+			want := ref.KMAC128([]byte(tag+sigSuite), msg, 128, []byte("H2C"))
+			run.Eval(1)
+			if !bytes.Equal(got, want) {
+				run.Violate("C01:expand-message-hasher", fmt.Sprintf("NewExpandMsgXOFKMAC128(tag of %d bytes) does not equal KMAC128(tag||suite, customizer H2C, 128 bytes)", l), map[string]any{"tag": tag})
+				break
+			}
+		}
+		run.Shape("tag-sweep")
+		k := randScalar(r)
+		sk := skFromInt(k)
+		for _, l := range []int{1, 100, 200, 211, 212, 213, 214, 220, 250, 254, 255, 256, 300, 399} {
+			tagA := string(base[:l]) + "A-tail"
+			tagB := string(base[:l]) + "B-tail"
+			hA, hB := crypto.NewExpandMsgXOFKMAC128(tagA), crypto.NewExpandMsgXOFKMAC128(tagB)
+			sig, err := sk.Sign(msg, hA)
+			if err != nil {
+				continue
+			}
+			verifyExpect(run, "C01", sk.PublicKey(), cand{b: sig, kind: "E"}, msg, hA, true, fmt.Sprintf("shared-prefix-%d", l))
+			verifyExpect(run, "C01", sk.PublicKey(), cand{b: sig, kind: "other-tag"}, msg, hB, false, fmt.Sprintf("shared-prefix-%d", l))
+		}
+		run.Shape("shared-prefix-tags")
+	}
 	// signatures whose x has its top five bits clear: the header byte carries flags only, so
 	// flag handling that looks at the whole first byte is exercised on an *accepted* point
 	for i := 0; i < run.Pick(2, 12); i++ {
